@@ -171,7 +171,7 @@ func normWS(s string) string {
 func genBech32() {
 	p := repoPkg("pkg/bech32")
 	b := repoPkg("pkg/bech32/internal/base32")
-	g := newGenHdr("Bech32", loopHeaderText)
+	g := newGenHdr("Bech32", loopHeaderText+flowHeaderText, "Iota.Model.GoBits")
 	g.def("maxStringLength", "Int", p.intConst("maxStringLength"))
 	g.def("checksumLength", "Int", p.intConst("checksumLength"))
 	g.def("separator", "Int", p.intConst("separator"))
@@ -188,13 +188,131 @@ func genBech32() {
 	for _, n := range []string{"bech32CreateChecksum", "bech32Polymod", "bech32HrpExpand", "bech32VerifyChecksum"} {
 		pinnedFns[p.method(n)] = true
 	}
+	// internal/base32 translated as code (tied to the model in Iota/Tie/Base32Code.lean); not pinned by text.
+	// Encode and Decode write into dst, which has the element type of src: they are translated under the assumption
+	// that the two arrays do not overlap.  The package is internal to pkg/bech32, so checkFreshDst sees every caller.
+	checkFreshDst(p, "base32", "Encode", "Decode")
+	g.raw("namespace base32\n" + translateLoopFuncs(b, "EncodedLen", "DecodedLen", "Encode!disjoint", "Decode!disjoint") + "end base32\n")
+	for _, n := range []string{"Encode", "Decode", "EncodedLen", "DecodedLen"} {
+		pinnedFns[b.method(n)] = true
+	}
 	g.src(p, "Encode", "Decode", "isValidHRPChar", "validateCase", "firstUpper", "firstLower",
 		"newEncoding", "encoding.encode", "encoding.decode")
-	g.src(b, "Encode", "Decode", "EncodedLen", "DecodedLen")
 	g.rest(b, "base32")
 	g.rest(p, "bech32")
 	g.write()
 }
+
+// checkFreshDst justifies the assumption under which fns of the imported package `imp` are translated (their first
+// parameter, an output buffer, does not overlap the other arguments): in every non-test file of p, each call
+// imp.F(dst, …) passes as dst a local variable that is defined exactly once in the calling function, by
+// `dst := make(…)`, is never assigned again, and does not occur in the other arguments.  A freshly made array
+// overlaps nothing that existed before it.
+func checkFreshDst(p *pkg, imp string, fns ...string) {
+	isFn := map[string]bool{}
+	for _, f := range fns {
+		isFn[f] = true
+	}
+	calls := 0
+	for _, fn := range p.sortedFiles() {
+		if strings.HasSuffix(fn, "_test.go") {
+			continue
+		}
+		for _, d := range p.files[fn].Decls {
+			fd, ok := d.(*ast.FuncDecl)
+			if !ok || fd.Body == nil {
+				continue
+			}
+			ast.Inspect(fd.Body, func(n ast.Node) bool {
+				c, ok := n.(*ast.CallExpr)
+				if !ok {
+					return true
+				}
+				sel, ok := c.Fun.(*ast.SelectorExpr)
+				if !ok || !isFn[sel.Sel.Name] {
+					return true
+				}
+				if x, ok := sel.X.(*ast.Ident); !ok || x.Name != imp {
+					return true
+				}
+				calls++
+				bad := func(why string) {
+					pos := p.fset.Position(c.Pos())
+					die("%s:%d: call of %s.%s: %s; the translation of %s.%s assumes that its first argument overlaps no other argument",
+						filepath.Base(pos.Filename), pos.Line, imp, sel.Sel.Name, why, imp, sel.Sel.Name)
+				}
+				if len(c.Args) < 2 {
+					bad("too few arguments")
+				}
+				dst, ok := c.Args[0].(*ast.Ident)
+				if !ok {
+					bad("the first argument is not a variable")
+				}
+				defs, fresh := 0, false
+				ast.Inspect(fd, func(m ast.Node) bool {
+					switch s := m.(type) {
+					case *ast.AssignStmt:
+						for i, l := range s.Lhs {
+							if id, ok := l.(*ast.Ident); ok && id.Name == dst.Name {
+								defs++
+								if s.Tok == token.DEFINE && len(s.Lhs) == len(s.Rhs) {
+									if mk, ok := s.Rhs[i].(*ast.CallExpr); ok {
+										if f, ok := mk.Fun.(*ast.Ident); ok && f.Name == "make" {
+											fresh = true
+										}
+									}
+								}
+							}
+						}
+					case *ast.ValueSpec:
+						for _, id := range s.Names {
+							if id.Name == dst.Name {
+								defs += 2
+							}
+						}
+					case *ast.Field:
+						for _, id := range s.Names {
+							if id.Name == dst.Name {
+								defs += 2
+							}
+						}
+					case *ast.RangeStmt:
+						for _, e := range []ast.Expr{s.Key, s.Value} {
+							if id, ok := e.(*ast.Ident); ok && id.Name == dst.Name {
+								defs += 2
+							}
+						}
+					case *ast.UnaryExpr:
+						if id, ok := s.X.(*ast.Ident); ok && s.Op == token.AND && id.Name == dst.Name {
+							defs += 2
+						}
+					case *ast.Ident:
+						if s.Name == "make" && s.Obj != nil {
+							defs += 2 // `make` is redefined in this file
+						}
+					}
+					return true
+				})
+				if defs != 1 || !fresh {
+					bad("the first argument `" + dst.Name + "` is not a variable defined once by `" + dst.Name + " := make(…)` in the calling function")
+				}
+				for _, a := range c.Args[1:] {
+					ast.Inspect(a, func(m ast.Node) bool {
+						if id, ok := m.(*ast.Ident); ok && id.Name == dst.Name {
+							bad("the first argument also occurs in another argument")
+						}
+						return true
+					})
+				}
+				return true
+			})
+		}
+	}
+	if calls == 0 {
+		die("%s: no call of %s.%v found", p.dir, imp, fns)
+	}
+}
+
 func genBip39() {
 	p := repoPkg("pkg/bip39")
 	wl := repoPkg("pkg/bip39/wordlist")
